@@ -428,6 +428,40 @@ def bounded_and_literals(prog, res, rule="R-BOUNDED"):
     return n
 
 
+def name_input_guard(prog, res, rule="R-SELECT"):
+    """device_manager_select_inner_: the caller's (name, length) pair is turned
+    into a std::string and its last character inspected only when both the
+    pointer and the length are non-zero (assign from NULL and rbegin() of an
+    empty string are undefined behaviour, i.e. a crash instead of an error)."""
+    f = prog.func("device_manager_select_inner_")
+    res.touched(f)
+    ptr_p = [p for p in f.params if p.get("pd") and "char" in p.get("t", "")]
+    len_p = [p for p in f.params if not p.get("pd") and "long" in p.get("t", "")]
+    if not ptr_p or not len_p:
+        raise AnalysisBroken("device_manager_select_inner_: (name, length) parameters not found")
+    pn, ln = ptr_p[0]["n"], len_p[0]["n"]
+    sites = [(b.id, i, c.get("fn")) for b, i, s_ in f.all_stmts() for c in ir.calls_in(s_)
+             if (c.get("fn") or "").endswith(("::assign", "::rbegin"))]
+    if not sites:
+        raise AnalysisBroken("device_manager_select_inner_: name handling not found")
+    bad = []
+    for bid, i, fn in sites:
+        for k in paths.knowledge_at(f, (bid, i)):
+            if k.get(pn) is not True or k.get(ln) is not True:
+                bad.append(fn.split("::")[-1])
+    for bid, i, fn in sites:
+        if fn.endswith("::rbegin"):
+            ok_, w_ = paths.all_paths_pass(f, "entry", {(bid, i)}, lambda q: any((c.get("fn") or "").endswith("::assign") for c in ir.calls_in(q)))
+            if not ok_:
+                bad.append("rbegin (of a string that may be empty: nothing was assigned to it)")
+    inst = "device_manager_select_inner_: the name is copied / inspected only when pointer and length are non-zero"
+    if bad:
+        res.fail(rule, inst, "R-SELECT|name-guard", f.loc(),
+                 "device_manager_select_inner_ can reach std::string::%s with a NULL name or a zero length: undefined behaviour (a crash) instead of an error status" % sorted(set(bad))[0])
+    else:
+        res.oblige(rule, inst, True, "%d site(s) reached only with %s and %s known non-zero" % (len(sites), pn, ln), f.loc())
+
+
 def run(ctx, res):
     prog = ctx.program()
     res.extra["explanation"] = EXPLANATION
@@ -444,6 +478,7 @@ def run(ctx, res):
     basics_tables(prog, res)
     loader_cleanup(prog, res)
     res.guard(bounded_and_literals, prog, res)
+    res.guard(name_input_guard, prog, res)
     from ..indexguard import rule_index_guards
     cnt = dict(prog.enum_values("BasicDeviceKind") or {}).get("BasicDeviceKindCount")
     res.guard(rule_index_guards, prog, res, ["basics_make_storage", "device_kind_as_string", "device_state_as_string"],
